@@ -47,10 +47,10 @@ ENGINE_TB = TB_COMMON + [
 ENGINE_STREAMS = {
     # property: list of (profile, histories quick, histories thorough, ops)
     "C01": [("C01", 50, 1500, 40), ("static", 30, 1000, 40), ("wide", 30, 600, 30), ("widekids", 30, 600, 90), ("readd", 30, 1000, 30), ("mix", 40, 2000, 40)],
-    "C02": [("C01", 40, 1500, 40), ("midset", 30, 1000, 40), ("binds", 30, 1500, 40), ("raise", 40, 1000, 30), ("chain", 30, 1000, 30), ("mix", 40, 2000, 40)],
-    "C03": [("C01", 40, 1500, 40), ("faults", 30, 1000, 40), ("alwaysfaults", 40, 1000, 40), ("sentinel", 80, 2000, 40), ("sentinelfaults", 60, 1500, 40), ("mix", 40, 2000, 40)],
+    "C02": [("C01", 40, 1500, 40), ("midset", 30, 1000, 40), ("binds", 30, 1500, 40), ("raise", 40, 1000, 30), ("chain", 30, 1000, 30), ("mix", 40, 2000, 40), ("wide", 20, 400, 30), ("widekids", 20, 400, 90)],
+    "C03": [("C01", 40, 1500, 40), ("faults", 30, 1000, 40), ("alwaysfaults", 40, 1000, 40), ("sentinel", 80, 2000, 40), ("sentinelfaults", 60, 1500, 40), ("mix", 40, 2000, 40), ("wide", 20, 400, 30), ("widekids", 20, 400, 90)],
     "C05": [("C01", 30, 1500, 40), ("faults", 30, 1500, 40), ("reject", 30, 1000, 40), ("wide", 20, 400, 30), ("sentinel", 60, 1500, 40), ("fanout", 30, 1000, 46), ("sentinelfaults", 40, 1500, 40), ("mix", 40, 2000, 40)],
-    "C06": [("C01", 40, 1500, 40), ("churn", 40, 1000, 60), ("wide", 20, 400, 30), ("sentinel", 60, 1500, 40), ("inner", 30, 1000, 40), ("mix", 40, 2000, 40)],
+    "C06": [("C01", 40, 1500, 40), ("churn", 40, 1000, 60), ("wide", 20, 400, 30), ("widekids", 20, 400, 90), ("sentinel", 60, 1500, 40), ("inner", 30, 1000, 40), ("mix", 40, 2000, 40)],
     "C07": [("faults", 50, 2000, 40), ("alwaysfaults", 50, 2000, 40), ("binds", 20, 1000, 40), ("reject", 30, 1000, 40), ("pardropfaults", 30, 1000, 30), ("mix", 40, 2000, 40)],
     "C08": [("binds", 60, 3000, 40), ("inner", 30, 1000, 40), ("bind2", 60, 2000, 40), ("deadobs", 40, 1500, 40), ("chain", 40, 1500, 30), ("mix", 40, 2000, 40)],
     "C10": [("C01", 30, 1500, 40), ("faults", 30, 1500, 40), ("inner", 40, 1500, 40), ("mix", 40, 2000, 40)],
@@ -134,9 +134,10 @@ def run_engine(ctx, K):
         n = tier_n(ctx, nq * 10, nt * 3)
         cases = os.path.join(ctx.rundir, "cases_%s_%s.v" % (ctx.pid, profile))
         extra = ["-include", ENGINE_INCLUDES[ctx.pid]] if ctx.pid in ENGINE_INCLUDES else []
-        if ctx.pid == "C01" and profile in ("wide", "widekids"):
-            # a corrupted edge list of a wide node (lost dependent edge) is what makes values stale there
-            extra = ["-include", "C05"]
+        if profile in ("wide", "widekids"):
+            # a corrupted edge list of a wide node (lost or misplaced edge) is what makes values stale, runs missed
+            # and nodes leak there: the edge oracles count for every property on these streams
+            extra = ["-include", ",".join(x for x in ("C05", ENGINE_INCLUDES.get(ctx.pid, "")) if x)]
         rep = K.run_tool(ctx, b, ["-prop", profile, "-claim", ctx.pid] + extra + ["-n", str(n), "-ops", str(ops), "-coq", cases,
                                   "-coqmax", str(tier_n(ctx, 1, 5) if profile == "widekids" else tier_n(ctx, nq, 1500)),
                                   "-seed", str(ctx.seed)], "engine-" + profile)
